@@ -171,7 +171,7 @@ def stepLine (s : Sess) (l : String) : Sess × String :=
             let txt := if e == .badLocationHeader && impl.startsWith "fault api:BadLocationHeader" then impl
                        else s!"fault api:{errKindName e} first-some={firstSome}"
             ({ s with flow := some fl2 }, s!"{opText} => {txt} @redirect")
-          | .fault (.panic _) => (s.gone, s!"{opText} => fault panic @gone")
+          | .fault (.panic _) => (s.gone, s!"{opText} => fault panic first-some={firstSome} @gone")
           | .outOfClass => (s.gone, s!"{l} #out-of-class")
       | none => (s, s!"{opText} => str not-offered @gone")
     | ["uri?"] =>
